@@ -13,3 +13,8 @@ func (sc *StoreChannel) VerifGcNow() {
 func VerifNewOutput(cfg SyncerConfig) (*RedisOutput, error) {
 	return NewSyncer(cfg).(*syncer).newOutput()
 }
+
+// VerifAofReaderRegistrations : see (*store.Storer).VerifAofReaderRegistrations.
+func (sc *StoreChannel) VerifAofReaderRegistrations() map[int64]int {
+	return sc.storer.VerifAofReaderRegistrations()
+}
